@@ -108,6 +108,8 @@ pub struct Cfg {
     pub toggle_d: bool,
     /// A may be re-created with a new address
     pub recreate_a: bool,
+    /// schema changes come with at most one topology change (quick tier)
+    pub light_schema_combos: bool,
     /// 1-in-k states (by canon hash) whose history is kept for the production-path audit
     pub audit_mod: u64,
     pub audit_cap: usize,
@@ -136,6 +138,7 @@ impl Cfg {
             move_b: v["move_b"].as_bool()?,
             toggle_d: v["toggle_d"].as_bool().unwrap_or(false),
             recreate_a: true,
+            light_schema_combos: false,
             audit_mod: 0,
             audit_cap: 0,
             batch: v["batch"].as_u64().unwrap_or(0) as u8,
@@ -217,27 +220,41 @@ pub struct TabModel {
     audit_seen: Mutex<BTreeSet<u64>>,
 }
 
-fn keyspaces(cfg: &Cfg, schema: Schema) -> Vec<KeyspaceSpec> {
-    let mut tables = Vec::new();
-    let mut views = Vec::new();
+/// A configured table name is `table` (keyspace `ks`) or `keyspace.table`.
+pub fn split_name(name: &str) -> (&str, &str) {
+    name.split_once('.').unwrap_or((KS, name))
+}
+
+/// The fetched schema. `NotTabletBased` / `KeyspaceGone` hit the keyspace of table #0 only; tables of
+/// other keyspaces stay tablet tables (the driver must tell keyspaces apart, also for equal table names).
+pub fn keyspaces(cfg: &Cfg, schema: Schema) -> Vec<KeyspaceSpec> {
+    let ks0 = split_name(&cfg.tables[0].0).0.to_string();
+    let mut out: Vec<KeyspaceSpec> = vec![KeyspaceSpec { name: "other".into(), tablet_based: true, tables: vec![], views: vec![] }];
     for (i, (name, is_view)) in cfg.tables.iter().enumerate() {
+        let (ks, tb) = split_name(name);
+        if ks == ks0 && schema == Schema::KeyspaceGone {
+            continue;
+        }
+        if !out.iter().any(|k| k.name == ks) {
+            out.push(KeyspaceSpec { name: ks.to_string(), tablet_based: !(ks == ks0 && schema == Schema::NotTabletBased), tables: vec![], views: vec![] });
+        }
         if schema == Schema::Dropped(i as u8) {
             continue;
         }
-        if *is_view { views.push(name.clone()) } else { tables.push(name.clone()) }
+        let k = out.iter_mut().find(|k| k.name == ks).unwrap();
+        if *is_view { k.views.push(tb.to_string()) } else { k.tables.push(tb.to_string()) }
     }
-    match schema {
-        Schema::KeyspaceGone => vec![KeyspaceSpec { name: "other".into(), tablet_based: true, tables: vec![], views: vec![] }],
-        Schema::NotTabletBased => vec![KeyspaceSpec { name: KS.into(), tablet_based: false, tables, views }],
-        _ => vec![KeyspaceSpec { name: KS.into(), tablet_based: true, tables, views }],
-    }
+    out
 }
 
 fn tablet_tables(cfg: &Cfg, schema: Schema) -> BTreeSet<String> {
-    match schema {
-        Schema::KeyspaceGone | Schema::NotTabletBased => BTreeSet::new(),
-        _ => cfg.tables.iter().enumerate().filter(|(i, _)| schema != Schema::Dropped(*i as u8)).map(|(_, (n, _))| n.clone()).collect(),
-    }
+    let ks0 = split_name(&cfg.tables[0].0).0;
+    cfg.tables
+        .iter()
+        .enumerate()
+        .filter(|(i, (n, _))| schema != Schema::Dropped(*i as u8) && !(split_name(n).0 == ks0 && matches!(schema, Schema::KeyspaceGone | Schema::NotTabletBased)))
+        .map(|(_, (n, _))| n.clone())
+        .collect()
 }
 
 fn catch<R>(f: impl FnOnce() -> R) -> Result<R, String> {
@@ -289,6 +306,10 @@ impl TabModel {
                     continue;
                 }
                 if recreate_a && !self.cfg.recreate_a {
+                    continue;
+                }
+                // light menu: several simultaneous topology changes only together with the unchanged schema
+                if self.cfg.light_schema_combos && schema != Schema::AllPresent && bits.count_ones() > 1 {
                     continue;
                 }
                 if move_b && !self.cfg.move_b {
@@ -371,7 +392,7 @@ impl TabModel {
         let raw: Vec<([u8; 16], i32)> = rset.iter().map(|(l, s)| (*uuid_of(*l).as_bytes(), *s)).collect();
         // server sends the left-open range (first-1, last]
         let payload = encode_payload(first - 1, last, &raw);
-        let out = catch(|| o.world.learn_from_payload(KS, tname, &payload)).map_err(|p| complaint("panic:learn", format!("learning tablet [{first},{last}] with replicas {rset:?} panicked: {p}")))?;
+        let out = catch(|| o.world.learn_from_payload(split_name(tname).0, split_name(tname).1, &payload)).map_err(|p| complaint("panic:learn", format!("learning tablet [{first},{last}] with replicas {rset:?} panicked: {p}")))?;
         let want = PayloadOutcome::Accepted { first_token: first, last_token: last, replicas: rset.iter().map(|(l, s)| (uuid_of(*l), *s as u32)).collect() };
         if out != want {
             return Err(complaint("payload", format!("payload for ({}, {last}] with replicas {rset:?}: parser produced {out:?}, expected {want:?}", first - 1)));
@@ -399,7 +420,7 @@ impl TabModel {
                     let raw: Vec<([u8; 16], i32)> = self.cfg.rsets[*r as usize].iter().map(|(l, s)| (*uuid_of(*l).as_bytes(), *s)).collect();
                     payloads.push((self.cfg.tables[*table as usize].0.clone(), encode_payload(first - 1, last, &raw)));
                 }
-                let refs: Vec<(&str, &str, &[u8])> = payloads.iter().map(|(t, p)| (KS, t.as_str(), p.as_slice())).collect();
+                let refs: Vec<(&str, &str, &[u8])> = payloads.iter().map(|(t, p)| (split_name(t).0, split_name(t).1, p.as_slice())).collect();
                 let outs = catch(|| o.world.learn_batch_from_payloads(&refs)).map_err(|p| complaint("panic:learn", format!("learning batch {items:?} panicked: {p}")))?;
                 if outs.iter().any(|x| !matches!(x, PayloadOutcome::Accepted { .. })) {
                     return Err(complaint("payload", format!("a payload of batch {items:?} was not accepted: {outs:?}")));
@@ -454,16 +475,26 @@ impl TabModel {
     /// All invariants + reference agreement in the current state. Returns the hash of all
     /// lookup answers (relabelled) for the differential oracle.
     pub fn verify(&self, o: &Obj) -> Result<u64, String> {
+        self.verify_with(o, &self.dumps(o))
+    }
+
+    /// The stored tablets of every configured table (read once per state, shared by the oracles and the canonical form).
+    pub fn dumps(&self, o: &Obj) -> Vec<Option<TableDump>> {
+        self.cfg.tables.iter().map(|(t, _)| o.world.table_dump(split_name(t).0, split_name(t).1)).collect()
+    }
+
+    pub fn verify_with(&self, o: &Obj, dumps: &[Option<TableDump>]) -> Result<u64, String> {
         let mut answers: Vec<u8> = Vec::with_capacity(256);
         let mut any_failed = false;
-        for (tname, _) in &self.cfg.tables {
-            let dump: Option<TableDump> = o.world.table_dump(KS, tname);
+        for (tidx, (tname, _)) in self.cfg.tables.iter().enumerate() {
+            let (ksn, tbn) = split_name(tname);
+            let dump: Option<&TableDump> = dumps[tidx].as_ref();
             let is_ref = o.reference.is_tablet_table(tname);
             if dump.is_some() != is_ref {
                 return Err(complaint("table-entry", format!("table {tname}: driver {} a tablet entry, the schema/learn history says it {}", if dump.is_some() { "has" } else { "has no" }, if is_ref { "should have one" } else { "should not" })));
             }
             let Some(dump) = dump else {
-                if o.world.lookup(KS, tname, 0, None).is_some() {
+                if o.world.lookup(ksn, tbn, 0, None).is_some() {
                     return Err(complaint("table-entry", format!("table {tname}: lookup answers for a table without entry")));
                 }
                 answers.push(0xee);
@@ -516,7 +547,7 @@ impl TabModel {
             }
             // 4. every token: latest-wins answer or nothing; DC-restricted answers are restrictions
             for tok in self.lookup_tokens() {
-                let got = catch(|| o.world.lookup(KS, tname, tok, None)).map_err(|p| complaint("panic:lookup", format!("lookup of {tok} panicked: {p}")))?.unwrap_or_default();
+                let got = catch(|| o.world.lookup(ksn, tbn, tok, None)).map_err(|p| complaint("panic:lookup", format!("lookup of {tok} panicked: {p}")))?.unwrap_or_default();
                 // i64::MIN is not a ring token: the driver's Token::new maps it to i64::MAX
                 let rtok = if tok == i64::MIN { i64::MAX } else { tok };
                 let rf = o.reference.lookup(tname, rtok).map_err(|e| complaint("reference", e))?;
@@ -530,10 +561,62 @@ impl TabModel {
                 }
                 answers.push(0xfe);
                 for dc in DCS {
-                    let got_dc = o.world.lookup(KS, tname, tok, Some(dc)).unwrap_or_default();
+                    // a datacenter nobody is in: asked for the first token only
+                    if (dc == "nope" && tok != self.lookup_tokens()[0]) || (!self.cfg.universe.is_empty() && !self.cfg.universe.contains(&tok)) {
+                        continue;
+                    }
+                    let got_dc = o.world.lookup(ksn, tbn, tok, Some(dc)).unwrap_or_default();
                     let restr: Vec<ReplicaView> = got.iter().filter(|r| r.datacenter.as_deref() == Some(dc)).cloned().collect();
                     if got_dc != restr {
                         return Err(complaint("lookup:dc-restriction", format!("table {tname}: token {tok} restricted to {dc} answers {:?}, the restriction of the full answer {:?} is {:?}", got_dc, got, restr)));
+                    }
+                }
+            }
+            // 5. the rest of the public lookup surface answers from the same tablet
+            let n_u = self.cfg.universe.len();
+            for (ti, &tok) in self.cfg.universe.iter().enumerate() {
+                if ti != 0 && ti + 1 != n_u {
+                    continue;
+                }
+                // first token: unrestricted; last token: restricted to a datacenter
+                for dc in [if ti == 0 { None } else { Some("dc2") }] {
+                    let base = o.world.lookup(ksn, tbn, tok, dc).unwrap_or_default();
+                    let full = o.world.lookup(ksn, tbn, tok, None).unwrap_or_default();
+                    let api = catch(|| o.world.lookup_api(ksn, tbn, tok, dc)).map_err(|p| complaint("panic:lookup-api", format!("public lookup surface panicked for token {tok} dc {dc:?}: {p}")))?;
+                    let Some(api) = api else { return Err(complaint("lookup-api:entry", format!("table {tname}: lookup_api has no entry where lookup has one"))) };
+                    let n = base.len();
+                    let bad = |what: &str, detail: String| Err(complaint(&format!("lookup-api:{what}"), format!("table {tname}, token {tok}, dc {dc:?}: {what}: {detail}; iteration gives {base:?}")));
+                    if api.iter != base {
+                        return bad("iter", format!("{:?}", api.iter));
+                    }
+                    if api.len != n || api.is_empty != (n == 0) {
+                        return bad("len", format!("len()={} is_empty()={}", api.len, api.is_empty));
+                    }
+                    if api.size_hint != (n, Some(n)) {
+                        return bad("size_hint", format!("{:?}", api.size_hint));
+                    }
+                    for (k, got) in api.nth.iter().enumerate() {
+                        if got.as_ref() != base.get(k) {
+                            return bad("nth", format!("nth({k}) = {got:?}"));
+                        }
+                    }
+                    let rest: Vec<ReplicaView> = base.iter().skip(2).cloned().collect();
+                    if api.after_nth1.0 != rest || api.after_nth1.1 != (rest.len(), Some(rest.len())) {
+                        return bad("after-nth", format!("after nth(1): {:?}", api.after_nth1));
+                    }
+                    if api.ordered != base {
+                        return bad("ordered", format!("into_replicas_ordered gives {:?}", api.ordered));
+                    }
+                    match &api.choose {
+                        None if n == 0 => {}
+                        Some(c) if base.contains(c) => {}
+                        other => return bad("choose_filtered", format!("{other:?}")),
+                    }
+                    if !api.choose_none {
+                        return bad("choose_filtered", "a rejecting predicate still got a replica".into());
+                    }
+                    if api.token_endpoints != full {
+                        return bad("get_token_endpoints", format!("{:?} vs full answer {full:?}", api.token_endpoints));
                     }
                 }
             }
@@ -549,6 +632,10 @@ impl TabModel {
     /// table-entry existence and the part of the topology later transitions depend on.
     /// Relabelling only: A's concrete address is replaced by "equals the current address of A".
     pub fn canon_bytes(&self, o: &Obj) -> Vec<u8> {
+        self.canon_with(o, &self.dumps(o))
+    }
+
+    pub fn canon_with(&self, o: &Obj, dumps: &[Option<TableDump>]) -> Vec<u8> {
         let mut c: Vec<u8> = Vec::with_capacity(128);
         c.push(o.topo.c_present as u8 | (o.topo.b_dc3 as u8) << 1 | (o.world.info_has_unknown_replicas() as u8) << 2 | (o.topo.d_present as u8) << 3);
         let dc_code = |d: &Option<String>| -> u8 {
@@ -565,8 +652,8 @@ impl TabModel {
             let cur_addr = o.topo.spec_of(label).map(|s| s.address);
             c.extend([label as u8, r.shard as u8, r.is_current_node_object as u8 | ((cur_addr == Some(r.address)) as u8) << 1, dc_code(&r.datacenter)]);
         };
-        for (tname, _) in &self.cfg.tables {
-            match o.world.table_dump(KS, tname) {
+        for d in dumps {
+            match d {
                 None => c.push(0xe0),
                 Some(d) => {
                     c.push(0xe1 + d.has_unknown_replicas as u8);
@@ -700,8 +787,9 @@ impl vcore::bfs::Model for TabModel {
     }
     fn check(&self, o: &LazyObj) -> Result<(), String> {
         self.with_state(o, |st| {
-            let answers = self.verify(st)?;
-            let canon = self.canon_bytes(st);
+            let dumps = self.dumps(st);
+            let answers = self.verify_with(st, &dumps)?;
+            let canon = self.canon_with(st, &dumps);
             let res = self.differential(&canon, answers);
             *o.canon.borrow_mut() = Some(canon);
             res
